@@ -132,6 +132,8 @@ type Engine struct {
 	maxPaths  int
 	// scalarLoopsOnce: loops ranging over a slice or array of strings/numbers are unrolled once whatever the loop bound
 	scalarLoopsOnce bool
+	// cloneFresh: bytes.Clone/slices.Clone yield a distinct value (for rules about aliasing rather than about values)
+	cloneFresh bool
 	funcByName      map[string]*ssa.Function
 	out             []Summary
 	root            *ssa.Function
@@ -906,6 +908,14 @@ func (e *Engine) doCall(s *state, fr *frame, v *ssa.Call, c *ssa.CallCommon) boo
 				fr.env[v] = mk("const", strconv.Quote(out), 0, v.Type())
 			}
 		}
+	}
+	// a copy of a byte slice has the value of the original: rules that speak about *which bytes* are returned, stored or sent
+	// compare values, so the copy stands for its source (an event records that it is a fresh buffer). Engines that track
+	// aliasing (the ReadLine view rule) keep the copy distinct: cloneFresh.
+	if (d.callee == "bytes.Clone" || d.callee == "slices.Clone") && len(d.args) == 1 && d.args[0] != nil && !e.cloneFresh {
+		fr.env[v] = d.args[0]
+		s.emit(Event{Kind: "copyconv", Args: []*Term{d.args[0]}, Pos: v.Pos(), Ctx: fr.ctx, Depth: fr.depth, InFn: fr.fn})
+		return false
 	}
 	if d.callee == "errors.Is" && len(d.args) == 2 {
 		if eq, known := errorsIsKnown(d.args[0], d.args[1]); known {
@@ -1868,6 +1878,35 @@ var successResults = map[string][]int{
 // contradictsContract: f claims that a success result of one of those calls is nil although the path already established
 // that the call's error is nil.
 func contradictsContract(facts []Fact, f Fact) bool {
+	// contract of x/mod note.Sign / note.Open (and ParseCheckpoint on top of it): signing adds signature lines and keeps the
+	// text, so the text of a note re-opened from Sign(n, …) is n's text: "they differ" is infeasible
+	if !f.Pos && f.T.Kind == "binop" && f.T.Name == "==" && len(f.T.Args) == 2 {
+		if sameTextBySignContract(f.T.Args[0], f.T.Args[1]) || sameTextBySignContract(f.T.Args[1], f.T.Args[0]) {
+			return true
+		}
+	}
+	// contract of note.Open / ParseCheckpoint: a note that opened carries at least one verified signature, and the bytes a
+	// witness verdict stands for (a stored or cosigned checkpoint) are never empty: "its length is zero" is infeasible
+	if x := assertsEmpty(f); x != nil {
+		if x.Kind == "stubval" {
+			return true
+		}
+		if x.Kind == "field" && x.Name == "Sigs" && len(x.Args) == 1 {
+			nt := x.Args[0]
+			for nt != nil && nt.Kind == "deref" && len(nt.Args) == 1 {
+				nt = nt.Args[0]
+			}
+			if nt != nil && nt.Kind == "call" {
+				if idxs, ok := successResults[nt.Name]; ok {
+					for _, i := range idxs {
+						if nt.Idx == i && errNilInFacts(facts, nt) {
+							return true
+						}
+					}
+				}
+			}
+		}
+	}
 	if !f.Pos || f.T.Kind != "binop" || f.T.Name != "==" {
 		return false
 	}
@@ -1912,6 +1951,88 @@ func contradictsContract(facts []Fact, f Fact) bool {
 		}
 	}
 	return false
+}
+
+// assertsEmpty: the fact says len(X) == 0 (in any of the forms the normaliser produces); returns X.
+func assertsEmpty(f Fact) *Term {
+	t := f.T
+	if t.Kind != "binop" || len(t.Args) != 2 {
+		return nil
+	}
+	lenArg := func(x *Term) *Term {
+		if x != nil && x.Kind == "len" && len(x.Args) == 1 {
+			return x.Args[0]
+		}
+		return nil
+	}
+	isC := func(x *Term, c string) bool { return x != nil && x.Kind == "const" && x.Name == c }
+	a, b := t.Args[0], t.Args[1]
+	switch {
+	case t.Name == "==" && f.Pos && lenArg(a) != nil && isC(b, "0"):
+		return lenArg(a)
+	case t.Name == "==" && f.Pos && lenArg(b) != nil && isC(a, "0"):
+		return lenArg(b)
+	case t.Name == "<" && !f.Pos && isC(a, "0") && lenArg(b) != nil: // !(0 < len)
+		return lenArg(b)
+	case t.Name == "<" && f.Pos && lenArg(a) != nil && isC(b, "1"): // len < 1
+		return lenArg(a)
+	}
+	return nil
+}
+
+// errNilInFacts: the facts establish that the error result of the call that t is a result of is nil.
+func errNilInFacts(facts []Fact, t *Term) bool {
+	for _, g := range facts {
+		if !g.Pos || g.T.Kind != "binop" || g.T.Name != "==" {
+			continue
+		}
+		x, y := g.T.Args[0], g.T.Args[1]
+		if x.Kind == "nil" {
+			x, y = y, x
+		}
+		if y.Kind == "nil" && x.Kind == "call" && x.Name == t.Name && x.Idx != t.Idx && isErrorType(x.Typ) && len(x.Args) == len(t.Args) {
+			same := true
+			for i := range x.Args {
+				if x.Args[i] != t.Args[i] {
+					same = false
+				}
+			}
+			if same {
+				return true
+			}
+		}
+	}
+	return false
+}
+
+// sameTextBySignContract: a is X.Text and b is (note opened from note.Sign(X, …)).Text.
+func sameTextBySignContract(a, b *Term) bool {
+	if a == nil || b == nil || a.Kind != "field" || b.Kind != "field" || a.Name != "Text" || b.Name != "Text" || len(a.Args) != 1 || len(b.Args) != 1 {
+		return false
+	}
+	x, reopened := a.Args[0], b.Args[0]
+	for reopened != nil && reopened.Kind == "deref" && len(reopened.Args) == 1 {
+		reopened = reopened.Args[0]
+	}
+	for x != nil && x.Kind == "deref" && len(x.Args) == 1 {
+		x = x.Args[0]
+	}
+	if reopened == nil || reopened.Kind != "call" || len(reopened.Args) < 3 {
+		return false
+	}
+	isOpen := strings.HasSuffix(reopened.Name, "sumdb/note.Open") || strings.HasSuffix(reopened.Name, "formats/log.ParseCheckpoint")
+	if !isOpen {
+		return false
+	}
+	src := reopened.Args[2]
+	if src == nil || src.Kind != "call" || !strings.HasSuffix(src.Name, "sumdb/note.Sign") || len(src.Args) < 3 {
+		return false
+	}
+	signed := src.Args[2]
+	for signed != nil && signed.Kind == "deref" && len(signed.Args) == 1 {
+		signed = signed.Args[0]
+	}
+	return signed == x
 }
 
 // isSentinel: a package-level Err* error variable (assigned once at init by errors.New: rule IMMUT-GLOBALS).
